@@ -118,6 +118,8 @@ pub struct GateState {
 }
 
 pub struct JobCtx {
+    /// identity of the job: the token handed to its workers
+    pub id: u64,
     pub seq: AtomicU64,
     /// bumped by every callback: progress signal
     pub events: AtomicU64,
@@ -139,7 +141,9 @@ pub struct JobCtx {
 
 impl JobCtx {
     pub fn new(delays: Option<DelaySpec>) -> Arc<JobCtx> {
+        static NEXT_ID: AtomicU64 = AtomicU64::new(1);
         Arc::new(JobCtx {
+            id: NEXT_ID.fetch_add(1, Ordering::SeqCst),
             seq: AtomicU64::new(0),
             events: AtomicU64::new(0),
             probes: Mutex::new(Vec::new()),
@@ -217,8 +221,26 @@ impl JobCtx {
 
 static CTX: RwLock<Option<Arc<JobCtx>>> = RwLock::new(None);
 
+thread_local! {
+    /// The context of the job the current worker thread belongs to: a straggler of a previous job
+    /// (e.g. still unwinding after a crash) keeps reporting to its own job, not to the next one.
+    static MY_CTX: std::cell::RefCell<Option<Arc<JobCtx>>> = const { std::cell::RefCell::new(None) };
+}
+
+/// The context of the job the current thread works for: worker threads get it through the token
+/// handed out by `worker_spawn` on the host thread, host threads through `adopt`.
 pub fn ctx() -> Option<Arc<JobCtx>> {
-    CTX.read().clone()
+    MY_CTX.with(|c| c.borrow().clone())
+}
+
+/// Bind the current (host / harness) thread to a job.
+pub fn adopt(c: Option<Arc<JobCtx>>) {
+    MY_CTX.with(|m| *m.borrow_mut() = c);
+}
+
+fn by_token(token: u64) -> Option<Arc<JobCtx>> {
+    let cur = CTX.read().clone();
+    cur.filter(|c| c.id == token)
 }
 
 struct Obs;
@@ -347,8 +369,16 @@ impl Observer for Obs {
         }
     }
 
-    fn worker_start(&self, loc: Loc) {
-        let Some(c) = ctx() else { return };
+    fn worker_spawn(&self, _loc: Loc) -> u64 {
+        // called on the host thread, which `run_job` bound to its job
+        ctx().map_or(0, |c| c.id)
+    }
+
+    fn worker_start(&self, loc: Loc, token: u64) {
+        // a worker of an execution that is not the current job (a straggler that starts late)
+        // stays unbound: its events are ignored
+        let Some(c) = by_token(token) else { return };
+        MY_CTX.with(|m| *m.borrow_mut() = Some(c.clone()));
         c.events.fetch_add(1, Ordering::Relaxed);
         let mut w = c.workers.lock().unwrap();
         w.started.push(loc);
@@ -364,6 +394,7 @@ impl Observer for Obs {
         w.parked.remove(&loc);
         drop(w);
         c.gate_cv.notify_all();
+        MY_CTX.with(|m| *m.borrow_mut() = None);
     }
 }
 
